@@ -798,6 +798,9 @@ func (e *Enc) checkBackEdge(fr *Frame, li *LoopInfo, from *ssa.BasicBlock, cond 
 		g := e.compileBool(ctx, inv.Expr)
 		o := e.addObl(fr, fmt.Sprintf("loop%d-preserved", li.Ordinal), implies(cond, g), inv.Src, h.Instrs[0].Pos(), inv.Props)
 		o.Name = fmt.Sprintf("%s/loop%d-preserved#%d@b%d", contractName(e.top), li.Ordinal, k+1, from.Index)
+		if checkProp == "" || hasProp(o.Props, checkProp) {
+			e.B.assume(implies(cond, g))
+		}
 	}
 }
 
